@@ -228,3 +228,20 @@ def c20_extended_check_window_truncated(v, case):
     return bool(v.get("extended_check") and v.get("within_3_slots_of_a_truncated_window_decision") and v.get("kind") in (
         "command-suppressed-although-nothing-in-flight", "unexpected-command-on-the-pads", "cs-high-on-two-consecutive-slots",
         "emitted-command-differs"))
+
+
+# ------------------------------------------------------------------------------------------------ C03
+def c03_clock_count_minimum_without_phase_margin(v, case):
+    """modules.py converts the *clock-count* part of a datasheet minimum with ceil(ck / nphases) and no phase margin (only
+    the nanosecond part gets one).  When the clock count dominates (low DRAM clocks) and the two commands sit on different
+    phases -- activates are issued on the read command phase in READ state and on the write command phase in WRITE state --
+    the spacing on the bus is up to nphases-1 clocks short (K4T1G164QG, tRRD=(4 ck, 10 ns), 1:2 at 100 MHz: 3 tCK).
+    Accepts only witnesses where the requirement comes from the clock count, the controller kept its own cycle count
+    (cycles apart * nphases >= requirement) and the shortfall is smaller than nphases."""
+    if v.get("kind") != "timing" or v.get("requirement_from") != "ck":
+        return False
+    n, need, act = v.get("nphases") or 1, v.get("required_tck"), v.get("actual_tck")
+    apart = v.get("controller_cycles_apart")
+    if None in (need, act, apart) or n < 2:
+        return False
+    return (need - act) < n and apart * n >= need and (v.get("phase_second") or 0) < (v.get("phase_first") or 0)
